@@ -1049,6 +1049,11 @@ class WSGIApp:
             raise BadRequest("No 'fileName' specified!")
         elif not filename.startswith("/"):
             raise BadRequest(f"Given 'fileName' doesn't start with a slash (/): {filename}")
+        try:
+            # the name becomes the value of the File: check the PathType constraints before anything is stored
+            model.File("fileName", submodel_element.content_type, value=filename)
+        except ValueError as e:
+            raise BadRequest(f"Given 'fileName' is not a valid path: {e}") from e
 
         file_storage: Optional[FileStorage] = request.files.get('file')
         if file_storage is None:
